@@ -406,7 +406,11 @@ func TestSurvey(t *testing.T) {
 		t.Skip("set C05_SURVEY")
 	}
 	requireReference()
-	fonts := pickFonts(100000)
+	nfonts := 100000
+	if os.Getenv("C05_SURVEY_QUICK") != "" { // the font sample of one quick shard (VERIF_SHARD/VERIF_NSHARDS)
+		nfonts = fontsPerShard()
+	}
+	fonts := pickFonts(nfonts)
 	f, err := os.Create(out)
 	if err != nil {
 		t.Fatal(err)
